@@ -23,7 +23,7 @@ from ..model import ANALYSIS
 from ..spec import dalvik
 from ..xref_engine import (Engine, XrefModel, XrefRules, Collector, Mut, rule_registration, rule_add_method_invariant,
                            rule_resolve, rule_call_graph, rule_ref_type_members, run_mutants,
-                           m_swap_args, m_set_arg, m_set_receiver, m_rename_call, m_delete_call, m_const, m_replace_src, b_rename_local)
+                           m_swap_args, m_set_arg, m_set_receiver, m_rename_call, m_delete_call, m_const, m_replace_src, m_seq, b_rename_local)
 
 # the thorough tier runs its own in-memory mutation adequacy (MUTANTS / BENIGN below, via xref_engine.run_mutants)
 OWN_MUTATION_ADEQUACY = True
@@ -53,6 +53,12 @@ MUTANTS = [
     Mut(ANALYSIS, CX, "offset 0 in add_method_xref_to", m_set_arg("add_method_xref_to", 3, "0")),
     Mut(ANALYSIS, CX, "resolve with swapped name/descriptor", m_swap_args("_resolve_method", 1, 2)),
     Mut(ANALYSIS, CX, "self calls excluded", m_replace_src("oth_meth = self._resolve_method(", "if class_info == cur_cls_name:\n    continue\noth_meth = self._resolve_method(")),
+    Mut(ANALYSIS, CX, "invoke-super resolved through the caller's parent", m_replace_src(
+        "oth_meth = self._resolve_method(", "if op_value in (111, 117):\n    class_info = cur_cls.extends\noth_meth = self._resolve_method(")),
+    Mut(ANALYSIS, CX, "callee resolved once per method and reused (stale loop-carried value)", m_seq(
+        m_replace_src("for off, instruction in current_method.get_instructions_idx():", "oth_meth = None\nfor off, instruction in current_method.get_instructions_idx():"),
+        m_replace_src("oth_meth = self._resolve_method(class_info, method_info[1], method_info[2])",
+                      "if oth_meth is None:\n    oth_meth = self._resolve_method(class_info, method_info[1], method_info[2])"))),
     Mut(ANALYSIS, "Analysis._resolve_method", "lookup key order", m_replace_src("(class_name, method_name, ''.join(method_descriptor))", "(method_name, class_name, ''.join(method_descriptor))")),
     Mut(ANALYSIS, "Analysis._resolve_method", "stub not stored (not shared)", m_replace_src("self.__method_hashes[m_hash] = meth_analysis", "pass")),
     Mut(ANALYSIS, "Analysis.get_call_graph", "call graph takes the class component", m_replace_src("for callee_class, callee_method, offset in", "for callee_method, callee_class, offset in")),
@@ -70,6 +76,9 @@ BENIGN = [
         "oth_cls.add_method_xref_from(oth_meth, cur_cls, cur_meth, off)\ncur_cls.add_method_xref_to(cur_meth, oth_cls, oth_meth, off)")),
     Mut(ANALYSIS, CX, "inline cur_cls", m_replace_src("cur_cls.add_method_xref_to(", "self.classes[cur_cls_name].add_method_xref_to(")),
     Mut(ANALYSIS, "Analysis._resolve_method", "rename m_hash", b_rename_local("m_hash", "key")),
+    Mut(ANALYSIS, CX, "locals pre-initialised before the loop and reset in it", m_seq(
+        m_replace_src("for off, instruction in current_method.get_instructions_idx():", "oth_cls = oth_meth = None\nfor off, instruction in current_method.get_instructions_idx():"),
+        m_replace_src("op_value = instruction.get_op_value()", "op_value = instruction.get_op_value()\noth_cls = oth_meth = None"))),
 ]
 
 
